@@ -118,8 +118,7 @@ fn run_variant(am: &mut Amortised, case: &Case, base: &Baseline, pos: usize, ext
                 // all passes ran and verified, the backend rejected what the passes produced:
                 // compile once more under the same pass list with the harness's own handler to
                 // learn the backend's message (it names the class of the failure)
-                let dir = am.scratch_dir();
-                let _ = write_pkg(&dir, "gencase", &case.src, true);
+                let dir = am.write_unique(&case.src);
                 let cfg2 = HookCfg { insert: Some((pos, extra.to_vec())), ..Default::default() };
                 let (d, _) = with_hook(cfg2, false, || catch(AssertUnwindSafe(|| am.diagnose_dir(&dir, Profile::Debug))));
                 let _ = std::fs::remove_dir_all(&dir);
